@@ -474,4 +474,3 @@ func (it *stringIter) next() tuple {
 	it.i += n
 	return okv
 }
-
